@@ -486,11 +486,10 @@ pub fn run_property(p: &dyn Property, quick: bool, ctx: &RunCtx) -> i32 {
     let aux_mode = std::env::var("VERIF_AUX").map(|v| v == "1").unwrap_or(false);
     // the run of the second build configuration (see ./check): its summary is folded into the evidence
     // written by the main run that follows it
-    let second: Value = std::env::var("VERIF_AUX_FILE")
+    let others: Vec<Value> = std::env::var("VERIF_AUX_FILES")
         .ok()
-        .and_then(|f| std::fs::read_to_string(f).ok())
-        .and_then(|s| serde_json::from_str(&s).ok())
-        .unwrap_or(Value::Null);
+        .map(|l| l.split(':').filter_map(|f| std::fs::read_to_string(f).ok()).filter_map(|s| serde_json::from_str(&s).ok()).collect())
+        .unwrap_or_default();
     if aux_mode && failure.is_none() {
         let summary = json!({
             "configuration": crate::keys::BUILD_CONFIG,
@@ -505,13 +504,13 @@ pub fn run_property(p: &dyn Property, quick: bool, ctx: &RunCtx) -> i32 {
         });
         let rdir = ctx.verif_dir.join("replays");
         let _ = std::fs::create_dir_all(&rdir);
-        std::fs::write(rdir.join(format!("aux-{id}.json")), serde_json::to_string_pretty(&summary).unwrap()).expect("write aux summary");
+        std::fs::write(rdir.join(format!("aux-{id}-{}.json", crate::keys::BUILD_TAG)), serde_json::to_string_pretty(&summary).unwrap()).expect("write aux summary");
         if let Err(m) = p.health(&total, quick) {
             println!("INCONCLUSIVE property={id} configuration=\"{}\" generator health: {m}", crate::keys::BUILD_CONFIG);
             return 2;
         }
         println!(
-            "ok(second configuration) property={} cases={} nontrivial={} wall={:.1}s [{}]",
+            "ok(other configuration) property={} cases={} nontrivial={} wall={:.1}s [{}]",
             id,
             total.evaluations,
             total.nontrivial.len(),
@@ -538,7 +537,7 @@ pub fn run_property(p: &dyn Property, quick: bool, ctx: &RunCtx) -> i32 {
             "exhaustive_part": p.exhaustive_part(quick),
             "regress_cases": regress_n,
             "configuration": crate::keys::BUILD_CONFIG,
-            "second_configuration": second,
+            "other_configurations": others,
         },
         "assumptions": p.assumptions(),
         "wall_s": wall,
